@@ -217,6 +217,7 @@ async def run_sequence(net, hyg, plan):
         port = None
         have_data = None       # (reader, writer) the peer has open and unconsumed
         stale = False          # the server may hold a data connection the peer already closed
+        kept = None            # a data connection prepared for a transfer command that was refused without a mark, still open
 
         def bad(sym, verb, cls, msg):
             viol.append({"key": f"{sym}:{verb}:{cls}", "msg": msg})
@@ -231,6 +232,11 @@ async def run_sequence(net, hyg, plan):
             is_xfer = verb in ("RETR", "STOR", "APPE", "LIST", "MLSD")
             if cfg == "wft-none" and data == "never":
                 data = "after"
+            if kept is not None and not (is_xfer and data == "before" and m.logged and m.passive):
+                # the data connection kept from a refused transfer command is of no use for this command: drop it
+                kept[1].close()
+                kept = None
+                stale = True
             if is_xfer and stale and m.passive and m.logged:
                 # be a normal client: renew the passive state before the next transfer
                 for pv in ("EPSV",):
@@ -253,10 +259,15 @@ async def run_sequence(net, hyg, plan):
             mon["reply_vs_model"] += 1
             conn = None
             if is_xfer and data == "before" and port is not None and m.logged and m.passive:
-                try:
-                    conn = await p.open_data(port)
-                except OSError:
-                    conn = None
+                if kept is not None:
+                    # the data connection a refused transfer command left unused serves this one (no new PASV / EPSV in between)
+                    conn, kept = kept, None
+                    mon["reused_unused_data_connection"] = mon.get("reused_unused_data_connection", 0) + 1
+                else:
+                    try:
+                        conn = await p.open_data(port)
+                    except OSError:
+                        conn = None
             r1 = await p.cmd(line)
             marks = 0
             final = r1
@@ -300,10 +311,14 @@ async def run_sequence(net, hyg, plan):
                     conn = None
                 final = await p.read_reply()
             elif conn is not None:
-                # refused without a mark: drop the prepared data connection (the server may still hold its end)
-                conn[1].close()
+                # refused without a mark: keep the prepared data connection for the next transfer command (every other time),
+                # or drop it (the server may still hold its end)
+                if brng.random() < 0.5 and final not in (None, "EOF"):
+                    kept = conn
+                else:
+                    conn[1].close()
+                    stale = True
                 conn = None
-                stale = True
             code = final.code if final not in (None, "EOF") else str(final)
             transcript.append([verb, arg, ("1xx+" if marks else "") + code])
             if final in (None, "EOF"):
@@ -470,6 +485,21 @@ def gen_cases(tier, seed):
             for cfg in ("wft-none", "limits", "timeouts", "limits-held"):
                 cases.append({"plan": {"seed": seed, "users": users, "cfg": cfg,
                                        "commands": [list(x) for x in seq + [("PWD", "", None, "plain")]]}})
+    # a transfer command that is refused without a mark, then another one on the data connection the first left unused
+    # (no new PASV / EPSV in between): the restart offset was for the refused one
+    R3 = ("REST", "3", None, "rest:ascii")
+    unused = [
+        [A, E, R3, ("RETR", "/nope", "before", "xfer"), ("RETR", "/top.txt", "before", "xfer")],
+        [A, E, R3, ("RETR", "/a", "before", "xfer"), ("APPE", "/top.txt", "before", "xfer"), ("RETR", "/top.txt", "before", "xfer")],
+        [A, E, R3, ("STOR", "/nope/x", "before", "xfer"), ("STOR", "/top.txt", "before", "xfer"), ("RETR", "/top.txt", "before", "xfer")],
+        [A, E, R3, ("APPE", "/top.txt/under", "before", "xfer"), ("RETR", "/a/f1", "before", "xfer")],
+        [A, E, ("RETR", "/nope", "before", "xfer"), R3, ("RETR", "/top.txt", "before", "xfer")],
+        [A, E, R3, ("RETR", "/nope", "before", "xfer"), ("LIST", "/a", "before", "xfer"), ("RETR", "/top.txt", "before", "xfer")],
+    ]
+    for seq in unused:
+        for backend in ("memory", "pathio"):
+            cases.append({"plan": {"seed": seed, "users": "A", "keep_unused": True, "backend": backend,
+                                   "commands": [list(x) for x in seq + [("PWD", "", None, "plain")]]}})
     # pairs under non-default server configurations (a third of them each)
     for k, seq in enumerate(itertools.product(ALPHABET, repeat=2)):
         cfg = ["wft-none", "limits", "timeouts", "limits-held"][k % 4]
